@@ -287,6 +287,12 @@ func (e editor) list(from *Selection, to *Selection, m *meta.List, new bool, str
 		var newItem bool
 		toChild = nil
 
+		// an item of a keyed list cannot be found or created without its key. (a key that
+		// is only partly there comes from sources that track just the first of several keys)
+		if len(key) > 0 && key[0] == nil {
+			return fmt.Errorf("%w. item %d of list %s has no value for its key", fc.BadRequestError, fromRequest.Row64, to.Path)
+		}
+
 		toRequest.First = true
 		toRequest.SetRow(fromRequest.Row64)
 		toRequest.Selection = to
